@@ -53,7 +53,8 @@ from . import memhist, vtime
 from .sched import TASK_ID, Sched, gated
 from .vtime import CLOCK, TICK
 
-MAX_COMMANDS = 40000          # a run issuing more backend commands than this is declared a livelock
+MAX_COMMANDS = 40000          # a run with more recorded events than this is declared a livelock
+MAX_RAW = 1000000             # ... or one that issues more commands than this, recorded or not
 
 CONFIGS = {
     # name: facade?, purge interval in ticks (0 = purge task off), extra url params
@@ -382,6 +383,8 @@ class Run:
         self.gated = case["mode"] == "gated"
         self.events: list[dict] = []
         self.ncmd = 0
+        self.nrec = 0
+        self.spin_seen: set = set()
         self.version = 0
         self.last_fail: dict = {}
         self.main_task = None
@@ -416,8 +419,8 @@ class Run:
         if self.torn:
             return
         self.ncmd += 1
-        if self.ncmd > MAX_COMMANDS:
-            raise Livelock(f"more than {MAX_COMMANDS} events")
+        if self.ncmd > MAX_RAW:
+            raise Livelock(f"more than {MAX_RAW} commands")
         kw["ev"] = ev
         kw["t"] = CLOCK.ticks()
         kw.setdefault("task", TASK_ID.get() if self.gated else _TIMED_TASK.get())
@@ -429,6 +432,22 @@ class Run:
                 self.last_fail[kw["task"]] = (self.version, CLOCK.t)
         elif ev == "unlock" and kw["res"]:
             self.version += 1
+        # A wait=True caller with check_interval 0 retries in a sleep(0) spin: dozens of identical refused set_lock (+ probe)
+        # per tick and waiter.  A retry that repeats, at the same instant and with no lock taken or released in between, what
+        # the same call already observed carries no information (the analysis skipped it anyway) and is not recorded - a long
+        # wait of several spinning callers must not exhaust the event budget and be mistaken for a livelock.
+        if ev == "ping":
+            return
+        if (ev == "set_lock" and not kw["res"]) or ev == "mw_ping":
+            sig = (ev, kw.get("tok") if ev == "set_lock" else kw.get("sec"), kw.get("be"), kw["res"], self.version, CLOCK.t)
+            if sig in self.spin_seen:
+                return
+            if len(self.spin_seen) > 64:
+                self.spin_seen.clear()
+            self.spin_seen.add(sig)
+        self.nrec += 1
+        if self.nrec > MAX_COMMANDS:
+            raise Livelock(f"more than {MAX_COMMANDS} events")
         self.events.append(kw)
 
     def is_own_unlock(self, label) -> bool:
